@@ -110,12 +110,24 @@ def family(gdim, tdim):
     add("c[a] * (1/c[a])  (free index must survive)", P(idx(c_t, a), D(one, idx(c_t, a))) if False else P(P(f, idx(c_t, a)), D(one, f)))
     add("f**2 * f**3", P(Pw(f, two), Pw(f, uflmodel.m_scalar(3))))
     add("(1/f) * (1/g)", P(D(one, f), D(one, g)))
+    # one factor several times in a product (the multiplicity is part of the value)
+    rf, rdet = D(one, f), D(one, detJ)
+    add("f * f * (1/f)", P(P(f, f), rf))
+    add("(1/f) * (1/f) * f", P(P(rf, rf), f))
+    add("detJ * detJ * (1/detJ)", P(P(detJ, detJ), rdet))
+    add("(1/detJ) * g * (1/detJ) * f * detJ**2", P(P(P(P(rdet, g), rdet), f), Pw(detJ, two)))
+    add("f * g * f * (1/f) * (1/f) * g", P(P(P(P(P(f, g), f), rf), rf), g))
+    add("f * f  (nothing to cancel)", P(f, f))
+    add("(1/f) * (1/f)", P(rf, rf))
     return E
 
 
 def run(ctx) -> Report:
     rep = Report("C09")
     prog = ctx.prog
+    # the memo-key clause first: it needs no interpretation, and what it finds is reported even if a later clause cannot follow the code
+    from ..memokey import check_memo_keys, memo_rule  # noqa: F401
+    check_memo_keys(ctx, rep, "C09-key", [MOD])
     passes = [("JacobianCanceller", "C09-delta"), ("IdentityEliminator", "C09-ident"), ("ReciprocalCanceller", "C09-pow")]
     ctx.crosscheck_dispatch({p for p, _ in passes} | {"IndexSumSimplifier"})
     n_changed = 0
@@ -178,7 +190,6 @@ def run(ctx) -> Report:
         rep.ok("C09-pipe/order", fnw, "JacobianCanceller, IdentityEliminator, ReciprocalCanceller")
     else:
         rep.violation("C09-pipe/order", fnw, "pipeline order", f"cancel_jacobian_products applies {order_src}")
-    check_memo_keys(ctx, rep, "C09-key", [MOD])
     # binder hygiene (shared structural rule, see C10-scope)
     rcls = prog.get_class("ufl.algorithms.remove_component_tensors.IndexReplacer")
     tab = ctx.disp.mf_table(rcls)
